@@ -1,4 +1,5 @@
 """LEX — crates/oq3_lexer/src/{cursor.rs,lib.rs}  (C14, C01-lexer, C11 flags, C15 classification)"""
+import re
 from vlib.unit import Unit
 from units import lex_stageb
 
@@ -156,7 +157,42 @@ decreases self.rest().len(),'''}),
     U.prelude('contracts/lexstr.prelude.rs')
     XP = ['C14', 'C01', 'C11', 'C15', 'C02', 'C12']
     KW = dict(ret='r', props=['C15', 'C01'], spec='ensures r is Some ==> (r->Some_0 as u16) < 128 && r->Some_0 != SyntaxKind::TOMBSTONE && r->Some_0 != SyntaxKind::EOF && r->Some_0 != SyntaxKind::UNDERSCORE,')
-    k.impl('SyntaxKind', [('from_keyword', KW), ('from_scalar_type', KW)])
+    # C15: "every keyword and type name ... with its own kind".  The table is NOT read from the bodies:
+    # it is generated from the VARIANT NAMES of SyntaxKind: `X_KW` / `X_TY` is the kind of the spelling
+    # lower(X) (a name made of single letters joined by `_`, O_P_E_N_Q_A_S_M, is the upper-case word)
+    import os as _os
+    from vlib.unit import REPO as _REPO
+    _src = open(_os.path.join(_REPO, SK)).read()
+    _enum = _src[_src.index('pub enum SyntaxKind'):]
+    _enum = _enum[:_enum.index('\n}')]
+
+    def _spelling(stem):
+        parts = stem.split('_')
+        return ''.join(parts) if len(parts) > 1 and all(len(x) == 1 for x in parts) else stem.lower()
+
+    def _table(suffix, arg):
+        kinds = [v for v in re.findall(r'(?m)^\s*(\w+)\s*,', _enum) if v.endswith(suffix)]
+        pos = ['%s@ == "%s"@ ==> r == Some(SyntaxKind::%s),' % (arg, _spelling(v[:-len(suffix)]), v) for v in kinds]
+        neg = 'r is Some ==> (%s),' % ' || '.join('%s@ == "%s"@' % (arg, _spelling(v[:-len(suffix)])) for v in kinds)
+        return ('\n    // each spelling has its own kind, and nothing else has one        //@C15:keyword-table\n    '
+                + '\n    '.join(p_ + '        //@C15:keyword-table' for p_ in pos) + '\n    ' + neg + '        //@C15:keyword-table'), len(kinds)
+    def _all_spellings():
+        return [_spelling(v[:-3]) for v in re.findall(r'(?m)^\s*(\w+)\s*,', _enum) if v.endswith('_KW') or v.endswith('_TY')] + ['_']
+
+    def _ident_table():
+        kws = [v for v in re.findall(r'(?m)^\s*(\w+)\s*,', _enum) if v.endswith('_KW')]
+        tys = [v for v in re.findall(r'(?m)^\s*(\w+)\s*,', _enum) if v.endswith('_TY')]
+        rows = [(_spelling(v[:-3]), v) for v in kws] + [(_spelling(v[:-3]), v) for v in tys]
+        pos = ['(*kind is Ident && token_text@ == "%s"@) ==> r.1 == SyntaxKind::%s,        //@C15:identifier-keyword-type-table' % (t, v) for t, v in rows]
+        neg = ('(*kind is Ident && token_text@ != "_"@ && %s) ==> r.1 == SyntaxKind::IDENT,        //@C15:identifier-keyword-type-table'
+               % ' && '.join('token_text@ != "%s"@' % t for t, v in rows))
+        return '\n    '.join(pos) + '\n    ' + neg + '\n'
+    _kw, _nkw = _table('_KW', 'ident')
+    _ty, _nty = _table('_TY', 'type_name')
+    U.n_keywords = (_nkw, _nty)
+    RSL = ('{', 'after', 'proof {\n@@STRLIT_FACTS@@\n}')
+    k.impl('SyntaxKind', [('from_keyword', dict(KW, strmatch=True, ghost=[RSL], spec=KW['spec'] + _kw)),
+                          ('from_scalar_type', dict(KW, strmatch=True, ghost=[RSL], spec=KW['spec'] + _ty))])
     U.file(SK2).impl('SyntaxKind', [('is_trivia', dict(ret='r', props=XP, spec='ensures r == (self == SyntaxKind::WHITESPACE || self == SyntaxKind::COMMENT),'))])
     REVEAL = ('(err, syntax_kind, ', 'before', 'proof { @@REVEAL_STRLITS@@ }')
     x.fn('extend_literal_func', ret='r', props=XP, ghost=[REVEAL], spec="""
@@ -175,7 +211,7 @@ ensures
     (*kind is BitStr && !kind->BitStr_terminated ==> r.0@.len() > 0),                                  //@C11:unterminated-bitstring-diagnosed
     (*kind is BitStr && kind->BitStr_terminated && !kind->BitStr_consecutive_underscores ==> r.0@.len() == 0),
 """)
-    x.fn('inner_extend_token', ret='r', props=XP, ghost=[REVEAL], spec="""
+    x.fn('inner_extend_token', ret='r', props=XP, ghost=[REVEAL, ('{', 'after', 'proof {\n' + '\n'.join('reveal_strlit("%s"); assert(%s);' % (t_, ' && '.join(['"%s"@.len() == %d' % (t_, len(t_))] + ["\"%s\"@[%d] == '%s'" % (t_, i_, c_) for i_, c_ in enumerate(t_)])) for t_ in _all_spellings()) + '\n}')], spec="""
 ensures
     r.2 == blen(token_text),
     // what reaches the parser fits its 128-bit token sets, and EOF/TOMBSTONE never come from a real token
@@ -212,7 +248,8 @@ ensures
     && (*kind is Slash ==> r.1 == SyntaxKind::SLASH) && (*kind is Caret ==> r.1 == SyntaxKind::CARET) && (*kind is Percent ==> r.1 == SyntaxKind::PERCENT),   //@C15:punctuation-table
     (*kind is Ident && token_text@ == "_"@ ==> r.1 == SyntaxKind::UNDERSCORE),                           //@C15:underscore
     (*kind is Ident && token_text@ != "_"@ ==> r.1 != SyntaxKind::UNDERSCORE),                           //@C15:underscore
-""")
+    // an identifier-shaped lexeme is the keyword / type name of exactly that spelling, else IDENT
+    """ + _ident_table())
     x.impl(r"LexedStr<'a>", [
         ('len', dict(ret='r', props=XP, spec='requires self.kind@.len() >= 1, ensures r == self.kind@.len() - 1,')),
         ('is_empty', dict(ret='r', props=XP, spec='requires self.kind@.len() >= 1, ensures r == (self.kind@.len() == 1),')),
